@@ -171,11 +171,18 @@ def opInfo : Op → Op × Int
 inductive Outcome | keepX | keepY | both | err
 deriving DecidableEq, Repr, Inhabited
 
-/-- the numeric opposite-direction cell (`xCat == -yCat`, operands `*Num`), after the swap that
-makes `x` the lower and `y` the upper bound -/
-def simplifyNumOpp (k : Kind) (xop yop : Op) (a b : Dec) : Outcome :=
-  let lo := if !k.hasFloat && a.exp < 0 then (if xop == .ge then Dec.ceil34 a else Dec.floor34 a) else a
-  let hi := if !k.hasFloat && b.exp < 0 then (if yop == .le then Dec.floor34 b else Dec.ceil34 b) else b
+/-- "Readjust bounds for integers": `>=3.4 ⇒ >=4`, `>3.4 ⇒ >3` (only when `k&FloatKind == 0`
+and the operand has a negative exponent) -/
+def adjLo (k : Kind) (xop : Op) (a : Dec) : Dec :=
+  if !k.hasFloat && a.exp < 0 then (if xop == .ge then Dec.ceil34 a else Dec.floor34 a) else a
+
+/-- `<=2.3 ⇒ <=2`, `<2.3 ⇒ <3` -/
+def adjHi (k : Kind) (yop : Op) (b : Dec) : Dec :=
+  if !k.hasFloat && b.exp < 0 then (if yop == .le then Dec.floor34 b else Dec.ceil34 b) else b
+
+/-- the comparison of the (adjusted) ends: fast path, `Sub` with the Inexact escape, the sign
+and the values 0 and 1 of the difference (`d.Int64()`; the value 2 never changes the result) -/
+def numOppCore (k : Kind) (xop yop : Op) (lo hi : Dec) : Outcome :=
   -- fast path: minimum ≤ 0 and a maximum of at least two digits
   if hi.sign > 0 && lo.sign ≤ 0 && decide (0 ≤ hi.exp) && decide (10 ≤ hi.coeff.natAbs) then .both else
   match Dec.sub34 hi lo with
@@ -183,10 +190,18 @@ def simplifyNumOpp (k : Kind) (xop yop : Op) (a b : Dec) : Outcome :=
   | some d =>
     if d.coeff < 0 then .err else
     match d.intVal? with
-    | some 1 =>
-      if !k.hasFloat && xop == .gt && yop == .lt then .err else .both
-    | some 0 => if xop == .ge && yop == .le then .both else .err
-    | _ => .both
+    | none => .both
+    | some z =>
+      if z == 1 then
+        (if !k.hasFloat && xop == Op.gt && yop == Op.lt then .err else .both)
+      else if z == 0 then
+        (if xop == Op.ge && yop == Op.le then .both else .err)
+      else .both
+
+/-- the numeric opposite-direction cell (`xCat == -yCat`, operands `*Num`), after the swap that
+makes `x` the lower and `y` the upper bound -/
+def simplifyNumOpp (k : Kind) (xop yop : Op) (a b : Dec) : Outcome :=
+  numOppCore k xop yop (adjLo k xop a) (adjHi k yop b)
 
 /-- the string / bytes opposite-direction cells, after the swap -/
 def simplifyStrOpp (xop yop : Op) (c : Ordering) : Outcome :=
@@ -195,35 +210,44 @@ def simplifyStrOpp (xop yop : Op) (c : Ordering) : Outcome :=
   | .eq => if xop == .ge && yop == .le then .both else .err
   | .gt => .err
 
-/-- `SimplifyBounds(ctx, k, x, y)`: `keepX`/`keepY` = returns `x`/`y`, `both` = returns nil,
-`err` = returns a `*Bottom`. -/
-def simplifyBounds (re : Bytes → Bytes → Bool) (k : Kind) (x y : Bound) : Outcome :=
-  let (cmpOp, xCat) := opInfo x.op
-  let (_, yCat) := opInfo y.op
-  if xCat == yCat then
-    match x.op with
-    | .ne | .mat | .nmat => if binOpEq x.val y.val then .keepX else .both
-    | _ => if binOpBool re cmpOp x.val y.val then .keepX else .keepY
-  else if xCat == -yCat then
-    -- swap so that `lo` is the lower and `hi` the upper bound
-    let (lo, hi) := if xCat == -1 then (y, x) else (x, y)
-    if k == Kind.string then
-      match lo.val, hi.val with
-      | .str a, .str b => simplifyStrOpp lo.op hi.op (compare a b)
-      | _, _ => .both
-    else if k == Kind.bytes then
-      match lo.val, hi.val with
-      | .bytes a, .bytes b => simplifyStrOpp lo.op hi.op (compare a b)
-      | _, _ => .both
-    else
-      match lo.val.num?, hi.val.num? with
-      | some a, some b => simplifyNumOpp k lo.op hi.op a b
-      | _, _ => .both
-  else if x.op == .ne then
+/-- `xCat == yCat` -/
+def simplifySame (re : Bytes → Bytes → Bool) (x y : Bound) : Outcome :=
+  match x.op with
+  | .ne | .mat | .nmat => if binOpEq x.val y.val then .keepX else .both
+  | _ => if binOpBool re (opInfo x.op).1 x.val y.val then .keepX else .keepY
+
+/-- `xCat == -yCat`, after the swap that makes `lo` the lower and `hi` the upper bound -/
+def simplifyOpp (k : Kind) (lo hi : Bound) : Outcome :=
+  if k == Kind.string then
+    match lo.val, hi.val with
+    | .str a, .str b => simplifyStrOpp lo.op hi.op (compare a b)
+    | _, _ => .both
+  else if k == Kind.bytes then
+    match lo.val, hi.val with
+    | .bytes a, .bytes b => simplifyStrOpp lo.op hi.op (compare a b)
+    | _, _ => .both
+  else
+    match lo.val.num?, hi.val.num? with
+    | some a, some b => simplifyNumOpp k lo.op hi.op a b
+    | _, _ => .both
+
+/-- the last four cases: one side is `!=` -/
+def simplifyNe (re : Bytes → Bytes → Bool) (x y : Bound) : Outcome :=
+  if x.op == .ne then
     if !(binOpBool re y.op x.val y.val) then .keepY else .both
   else if y.op == .ne then
     if !(binOpBool re x.op y.val x.val) then .keepX else .both
   else .both
+
+/-- `SimplifyBounds(ctx, k, x, y)`: `keepX`/`keepY` = returns `x`/`y`, `both` = returns nil,
+`err` = returns a `*Bottom`. -/
+def simplifyBounds (re : Bytes → Bytes → Bool) (k : Kind) (x y : Bound) : Outcome :=
+  let xCat := (opInfo x.op).2
+  let yCat := (opInfo y.op).2
+  if xCat == yCat then simplifySame re x y
+  else if xCat == -yCat then
+    (if xCat == -1 then simplifyOpp k y x else simplifyOpp k x y)
+  else simplifyNe re x y
 
 /-! ### the node state and conjunct insertion -/
 
